@@ -274,6 +274,9 @@ class InlineTranslator:
             new_terms.extend([Function(LOC, "unique", [], False)] * (max_arity - len(new_terms) + 1))
             new_body = rbody + list(elem.condition)
             new_minimizes.append(stm.update(body=new_body, terms=new_terms, weight=new_weight))
+        # later replacements have to stay distinct from the tuples created here
+        self.minimize_tuples = [t for t in self.minimize_tuples if t != replace_terms]
+        self.minimize_tuples.extend([m.weight, m.priority] + list(m.terms) for m in new_minimizes)
         return new_minimizes
 
     @staticmethod
